@@ -173,6 +173,13 @@ def walk(mir, header, body, tags, ops, calls_seen, depth=0):
 					raise Inconclusive("positional read at a position that is neither range.offset nor 0")
 				ops.append({"op": "pread", "pos": pos})
 				tags[dst] = set()
+			elif re.search(r"Read>::(read_to_end|read|read_buf|read_to_string)$", callee) and file_arg:
+				# any cursor-based read through the file (e.g. File::take(n).read_to_end): reads at and advances the shared offset
+				desc = desc_of(set().union(*argtags))
+				ops.append({"op": "read", "desc": desc or "self"})
+				tags[dst] = set()
+			elif re.search(r"\b(RwLock|Atomic\w*|RefCell|Cell|OnceLock|OnceCell|UnsafeCell)\b", callee) and any("SELF" in t for t in argtags):
+				raise Inconclusive(f"shared mutable state of the reader other than the file cursor is used ({callee.split('::<')[0][-60:]}): outside the cursor model")
 			elif re.search(r"Mutex<.*>::lock$", callee):
 				ops.append({"op": "lock"})
 				tags[dst] = {"GUARD"} | alltags
